@@ -1623,6 +1623,7 @@ func ruleAllocFromFileInt(c *eng.Ctx) {
 	}
 	DebugByteAsRune(c)
 	DebugRepeatSinks(c)
+	DebugFloatSizes(c)
 	if os.Getenv("VDEBUG") == "bidx" {
 		DebugBinaryIndex(c)
 	}
